@@ -26,9 +26,10 @@
 (* Impl-shaped (Impl): Cython/Utility/Optimize.c                            *)
 (*   __Pyx_PyUnicode_AsDouble (ASCII -> bytes path, else _WithSpaces),      *)
 (*   __Pyx__PyBytes_AsDouble, _inf_nan, _Copy, fallback to CPython.         *)
-(* ImplAgreesOffHazards + PublishHazards: the strings on which the          *)
-(* transcription leaves the reference are published and replayed on the     *)
-(* compiled code, as is every accepted string (with its denotation).        *)
+(* ImplAgrees (fast path = reference) does NOT hold; PublishHazards prints  *)
+(* the strings on which the transcription leaves the reference; they are    *)
+(* replayed on the compiled code, as is every accepted string (with its     *)
+(* denotation) and every rejected one (enumerated by the binding).          *)
 (*                                                                          *)
 (* States: (family, mode, str).  Next appends one symbol of the family's     *)
 (* alphabet (exhaustive up to the family's length); Init additionally picks *)
